@@ -218,6 +218,18 @@ func sysValidate(c *vf.Ctx, cfg sys.Config, runs []*sysRun, shards int) (rejecte
 	return rejected, validated
 }
 
+// drawMd picks the metadata of a call: none twice as often as some, and of the calls that carry
+// metadata every other one (by position in the list, so that the draw consumes exactly one random
+// number as before) carries M2 instead of M1 - two calls with different metadata overlapping on one
+// connection is what a conn-wide metadata buffer needs in order to show (seeded change C11c).
+func drawMd(rng *rand.Rand, i int) string {
+	md := []string{"none", "none", "M1"}[rng.Intn(3)]
+	if md == "M1" && i%2 == 1 {
+		md = "M2"
+	}
+	return md
+}
+
 // sysRandomStims draws a seeded stimulus list with the given weights.
 func sysRandomStims(rng *rand.Rand, cfg sys.Config, n int, w map[string]int) []sys.Stim {
 	kinds := []string{}
@@ -238,12 +250,12 @@ func sysRandomStims(rng *rand.Rand, cfg sys.Config, n int, w map[string]int) []s
 			if rng.Intn(12) == 0 {
 				iop = "InvokeBad" // a request the encoding cannot marshal
 			}
-			out = append(out, sys.Stim{K: "start", T: t, Op: iop, Md: []string{"none", "none", "M1"}[rng.Intn(3)]})
+			out = append(out, sys.Stim{K: "start", T: t, Op: iop, Md: drawMd(rng, i)})
 			if hasPoint(cfg, "manager.acquire.got") && rng.Intn(10) < 7 {
 				out = append(out, sys.Stim{K: "point", T: t})
 			}
 		case "newstream":
-			out = append(out, sys.Stim{K: "start", T: t, Op: "NewStream", Md: []string{"none", "none", "M1"}[rng.Intn(3)]})
+			out = append(out, sys.Stim{K: "start", T: t, Op: "NewStream", Md: drawMd(rng, i)})
 			if hasPoint(cfg, "manager.acquire.got") && rng.Intn(10) < 7 {
 				out = append(out, sys.Stim{K: "point", T: t})
 			}
